@@ -293,21 +293,36 @@ structure StdTxRec where
 def stdTxTail (t : StdTxRec) : List Fld :=
   [.bytes (encodeStruct 1 [.bytes t.pk, .bytes t.sig]), .bytes t.memo, .uint (toU64 t.entropy)]
 
-def encodeStdTxCore (t : StdTxRec) : Bytes :=
-  encodeFld 1 (.bytes t.msg) ++ (encodeFee t.fee ++ encodeStruct 3 (stdTxTail t))
+/-- the layout shared by `StdTx` and `BaseAccount`: an optional bytes field 1, a repeated coin field 2, then ordinary
+fields from number 3 -/
+def encodeMFT (m : Bytes) (fee : List Coin) (tail : List Fld) : Bytes :=
+  encodeFld 1 (.bytes m) ++ (encodeFee fee ++ encodeStruct 3 tail)
 
-def encodeStdTx (pre : Bytes) (t : StdTxRec) : Bytes := pre ++ encodeStdTxCore t
-
-def decodeStdTxCore (bs : Bytes) : Option (Bytes × List Coin × List Fld) :=
+def decodeMFT (kinds : List Bool) (bs : Bytes) : Option (Bytes × List Coin × List Fld) :=
   match decodeOptBytes 10 bs with
   | none => none
   | some (m, r1) =>
     match decodeFeeAux (r1.length + 1) r1 with
     | none => none
     | some (fee, r2) =>
-      match decodeStruct 3 [true, true, false] r2 with
+      match decodeStruct 3 kinds r2 with
       | none => none
       | some fs => some (m, fee, fs)
+
+def encodeStdTxCore (t : StdTxRec) : Bytes := encodeMFT t.msg t.fee (stdTxTail t)
+
+def encodeStdTx (pre : Bytes) (t : StdTxRec) : Bytes := pre ++ encodeStdTxCore t
+
+def decodeStdTxCore (bs : Bytes) : Option (Bytes × List Coin × List Fld) := decodeMFT [true, true, false] bs
+
+/-- an account as stored (`auth.BaseAccount`): address, coins, the registered key's own encoding -/
+structure AccountRec where
+  addr : Bytes
+  coins : List Coin
+  pk : Bytes
+  deriving Repr, DecidableEq
+
+def encodeAccount (pre : Bytes) (a : AccountRec) : Bytes := pre ++ encodeMFT a.addr a.coins [.bytes a.pk]
 
 /-! ### store keys of x/pos -/
 
